@@ -170,8 +170,9 @@ def spell(rng, key):
 class Scn:
     """one scenario: clients with startup packets, a script of client operations, canaries"""
 
-    def __init__(self, rng, pool_size, nclients, nops, classes=(), maxlen=400):
+    def __init__(self, rng, pool_size, nclients, nops, classes=(), maxlen=400, mode="transaction"):
         self.pool_size = pool_size
+        self.mode = mode      # pool_mode of the pool: "transaction" | "session"
         self.clients = []     # dict(name, pairs[(k,v) bytes], flags set)
         self.ops = []         # ("q", ci, [stmt dict]) | ("x", ci, how)
         self.flags = set()
@@ -272,19 +273,27 @@ class Scn:
     def gen_ops(self, nops):
         rng = self.rng
         live = list(self.clients)
+        sess = self.mode == "session"
+
+        def holds(x):      # session mode: from the first message until the client leaves
+            return x["alive"] and (x["txn"] != "I" or (sess and x.get("held")))
         for _ in range(nops):
-            holders = [c for c in self.clients if c["alive"] and c["txn"] != "I"]
-            cands = [c for c in live if c["alive"] and (c["txn"] != "I" or len(holders) < self.pool_size)]
+            holders = [c for c in self.clients if holds(c)]
+            cands = [c for c in live if c["alive"] and (holds(c) or len(holders) < self.pool_size)]
             if not cands:
                 break
             c = rng.choice(cands)
             ci = self.clients.index(c)
             r = rng.random()
-            if r < 0.04 and sum(1 for x in live if x["alive"]) > 1:
+            waiting = [x for x in live if x["alive"] and not holds(x)]
+            pleave = 0.04 if not sess else (0.22 if (c.get("held") and waiting and c.get("nq", 0) >= 2) else 0.05)
+            if r < pleave and sum(1 for x in live if x["alive"]) > 1:
                 self.ops.append(("x", ci, rng.choice(["X", "close"])))
                 c["alive"] = False
                 c["txn"] = "I"
                 continue
+            c["held"] = True
+            c["nq"] = c.get("nq", 0) + 1
             if c["txn"] == "E":
                 kinds = [rng.choice(["rollback", "rollback", "commit", "select"])]
             elif c["txn"] == "T":
@@ -311,8 +320,8 @@ class Scn:
             self.ops.append(("q", ci, stmts))
         # wind down: nobody keeps a server
         for ci, c in enumerate(self.clients):
-            if c["alive"] and c["txn"] != "I":
-                if rng.random() < 0.5:
+            if c["alive"] and (c["txn"] != "I" or (sess and c.get("held"))):
+                if rng.random() < 0.5 and not sess:
                     s = self.stmt(c, rng.choice(["commit", "rollback"]))
                     self.apply_txn(c, [s])
                     self.ops.append(("q", ci, [s]))
@@ -325,7 +334,8 @@ class Scn:
 
     # -- wire scenario
     def wire(self):
-        toml = W.make_toml(general={"connect_timeout": 10000}, pools={"db": {"users": [{"username": "u", "password": "pw", "pool_size": self.pool_size}],
+        toml = W.make_toml(general={"connect_timeout": 10000}, pools={"db": {"opts": {"pool_mode": self.mode},
+                                                                            "users": [{"username": "u", "password": "pw", "pool_size": self.pool_size}],
                                          "shards": [{"database": "db0", "servers": [["b0", "primary"]]}]}})
         steps = []
         for c in self.clients:
@@ -365,14 +375,14 @@ class Scn:
             d = dict(x)
             d["sql"] = x["sql"].hex()
             return d
-        return {"pool_size": self.pool_size,
+        return {"pool_size": self.pool_size, "mode": self.mode,
                 "clients": [{"name": c["name"], "pairs": [[k.hex(), v.hex()] for k, v in c["pairs"]], "flags": sorted(c["flags"])} for c in self.clients],
                 "ops": [[o[0], o[1], [st(x) for x in o[2]] if o[0] == "q" else o[2]] for o in self.ops]}
 
     @staticmethod
     def from_json(j):
         s = Scn.__new__(Scn)
-        s.pool_size, s.rng, s.maxlen, s.flags = j["pool_size"], None, 0, set()
+        s.pool_size, s.rng, s.maxlen, s.flags, s.mode = j["pool_size"], None, 0, set(), j.get("mode", "transaction")
         s.clients = [{"name": c["name"], "pairs": [(bytes.fromhex(k), bytes.fromhex(v)) for k, v in c["pairs"]], "flags": set(c["flags"]),
                       "alive": True, "txn": "I", "n": 0} for c in j["clients"]]
         s.ops = []
@@ -386,7 +396,7 @@ class Scn:
         return s
 
     def describe(self):
-        return {"pool_size": self.pool_size,
+        return {"pool_size": self.pool_size, "pool_mode": self.mode,
                 "clients": [{"name": c["name"], "startup": [[k.decode("latin1"), v.decode("utf-8", "replace")[:200]] for k, v in c["pairs"]]} for c in self.clients],
                 "ops": [[self.clients[o[1]]["name"], [s["sql"].decode("utf-8", "replace")[:300] for s in o[2]]] if o[0] == "q"
                         else [self.clients[o[1]]["name"], o[2]] for o in self.ops]}
@@ -596,7 +606,7 @@ def model_ops(scn, obs):
         it = obs.msgs.get(("z%d" % i, 0))
         ops.append("OConnect %d [(%s, %s); (%s, %s)]" % (zi, cb(b"user"), cb(b"u"), cb(b"database"), cb(b"db")))
         ops.append("OQuery %d %d [SBegin]" % (zi, (it["conn"] - 1) if it else 0))
-    return "run_mock_c [%s]" % "; ".join(ops)
+    return "%s [%s]" % ("run_mock_sc" if scn.mode == "session" else "run_mock_c", "; ".join(ops))
 
 
 def bs(x):
@@ -741,9 +751,9 @@ def boundary_scenarios(rng):
     """hand-made scenarios run in every tier (seed-independent shapes)"""
     out = []
 
-    def mk(pool_size, clients, ops):
+    def mk(pool_size, clients, ops, mode="transaction"):
         s = Scn.__new__(Scn)
-        s.pool_size, s.rng, s.maxlen, s.flags, s.ops = pool_size, rng, 3000, set(), []
+        s.pool_size, s.rng, s.maxlen, s.flags, s.ops, s.mode = pool_size, rng, 3000, set(), [], mode
         s.clients = [{"name": "c%d" % i, "pairs": [(b"user", b"u"), (b"database", b"db")] + p, "flags": set(f), "alive": True, "txn": "I", "n": 0}
                      for i, (p, f) in enumerate(clients)]
         for o in ops:
